@@ -20,6 +20,7 @@ func init() {
 		Explanation: "Filter-list refresh. Decided: (D1) commit only on success: CloseReplace is called only where the `updated` flag is true; the flag handed to the finaliser is the function's own ok result, ok implies err == nil for the very error being returned, no transfer/parse error is overwritten with nil on the way, and the parser writes only into the pending file; " +
 			"(D2) an unchanged checksum never sets ok; (D3) list metadata (rule count, checksum, name) is written only after CloseReplace returned nil, when (re)loading the file, and when copying back a list that really was updated with matching ID and URL; (D4) a response is handed to the parser only for status 200 with a nil transport error. " +
 			"(D5) the parser: the HTML test is applied to the trimmed line for as long as nothing has been written (no other condition stands before it) and its positive outcome returns the HTML error; what is written is exactly the trimmed line plus a newline, only for lines classified as rules, the classification sees only the trimmed line, and the rule count and checksum are advanced exactly once, over that same trimmed line, on the path that writes — so re-parsing the stored form reproduces count and checksum; the parse loop stops at the first line error and adds the bytes written. " +
+			"(D6) the two line classifiers (before / after the title was seen), evaluated over the finite domain {empty, first byte '#', first byte '!', binary-looking byte present, title prefix}, return the same verdict for every line. " +
 			"Not decided: what counts as an HTML or binary line (isHTMLLine/parseLine internals), fault placement inside a body.",
 		RuleText:    "Path guards and reaching-store resolution on SSA; writers of the metadata fields are enumerated over the whole module.",
 		Assumptions: []string{"a failure of CloseReplace itself (rename/fsync error) is outside the enumerated faults"},
@@ -741,4 +742,160 @@ func c15Parser(c *Ctx) {
 		}
 	}
 	r.Check(stops, "C15-D5", "parse-stops-at-first-line-error", p.FnPos(pf), "parsing stops at the first line error (HTML, binary, write error) and reports it", "parsing can continue after a line error")
+	parserReportsReadError(c, "C15-D5")
+	c15ClassifiersAgree(c)
+}
+
+// c15ClassifiersAgree: D6.  Until a title line has been seen the parser
+// classifies lines with parseLineTitle, afterwards with parseLine.  The stored
+// normal form contains no title line, so when it is parsed again *every* line
+// goes through parseLineTitle, while at download time the lines after the title
+// went through parseLine.  Count and checksum are reproduced only if the two
+// classify every line alike.  Both functions look at a line only through: its
+// emptiness, its first byte being '#' or '!', the index of the first
+// binary-looking byte, and the title prefix; they are evaluated over that
+// finite domain and must return the same (badIdx, isRule) everywhere.
+func c15ClassifiersAgree(c *Ctx) {
+	p, r := c.P, c.R
+	pl := p.Fn("filtering/rulelist.parseLine")
+	pt := p.Fn("(*filtering/rulelist.Parser).parseLineTitle")
+	if pl == nil || pt == nil {
+		r.Undecided("C15-D6", "classifiers", "-", "parseLine / parseLineTitle not found")
+		return
+	}
+	model := func(lineIdx int) core.AbsModel {
+		isLine := func(a core.AbsVal) bool { return a.Kind == core.AbsParam && a.Idx == lineIdx }
+		return core.AbsModel{
+			Project: func(op string, arg core.AbsVal) (string, bool) {
+				switch {
+				case op == "len" && isLine(arg):
+					return "len", true
+				case op == "[0]" && isLine(arg):
+					return "first", true
+				case strings.HasPrefix(op, "slices.IndexFunc") && isLine(arg):
+					return "badIdx", true
+				}
+				return "", false
+			},
+			Predicate: func(op string, arg core.AbsVal) (string, bool) {
+				switch {
+				case arg.Kind == core.AbsProj && arg.Sym == "len" && (op == "==const:0" || op == "<=const:0" || op == "<const:1"):
+					return "empty", true
+				case arg.Kind == core.AbsProj && arg.Sym == "first" && op == "==const:35":
+					return "hash", true
+				case arg.Kind == core.AbsProj && arg.Sym == "first" && op == "==const:33":
+					return "bang", true
+				case arg.Kind == core.AbsProj && arg.Sym == "badIdx" && op == "==const:-1":
+					return "clean", true
+				case op == "bytes.HasPrefix" && isLine(arg):
+					return "titlePrefix", true
+				}
+				return "", false
+			},
+		}
+	}
+	b2 := func(v bool) [2]bool { return [2]bool{v, v} }
+	n := 0
+	var bad []string
+	for _, empty := range []bool{true, false} {
+		for _, first := range []string{"#", "!", "x"} {
+			for _, clean := range []bool{true, false} {
+				for _, title := range []bool{true, false} {
+					if empty && (first != "x" || !clean || title) {
+						continue // one representative for the empty line
+					}
+					if title && first != "!" {
+						continue // the title prefix starts with '!'
+					}
+					f := core.AbsFacts{Pred: map[string][2]bool{"empty": b2(empty), "hash": b2(first == "#"), "bang": b2(first == "!"), "clean": b2(clean), "titlePrefix": b2(title)}}
+					desc := fmt.Sprintf("empty=%v first=%s clean=%v titlePrefix=%v", empty, first, clean, title)
+					r1, ok1, w1 := core.AbsEvalMulti(pl, model(0), f)
+					r2, ok2, w2 := core.AbsEvalMulti(pt, model(1), f)
+					n++
+					r.Eval(2)
+					if !ok1 || !ok2 {
+						bad = append(bad, fmt.Sprintf("%s: not decidable (%s%s): a condition the other classifier does not know", desc, w1, w2))
+						continue
+					}
+					norm := func(rs []core.AbsVal) string {
+						var out []string
+						for _, v := range rs {
+							v.Idx = 0
+							out = append(out, v.String())
+						}
+						return strings.Join(out, ",")
+					}
+					if norm(r1) != norm(r2) {
+						bad = append(bad, fmt.Sprintf("%s: parseLine gives %v, parseLineTitle gives %v", desc, r1, r2))
+					}
+				}
+			}
+		}
+	}
+	sort.Strings(bad)
+	if len(bad) > 6 {
+		bad = append(bad[:6], fmt.Sprintf("... %d more cases", len(bad)-6))
+	}
+	r.Check(n >= 8 && len(bad) == 0, "C15-D6", "classifiers-agree", p.FnPos(pt),
+		fmt.Sprintf("parseLine and parseLineTitle classify every line alike (%d abstract cases): re-parsing the stored list reproduces rule count and checksum", n),
+		"parseLine and parseLineTitle classify some lines differently: a list stored after a successful refresh is counted and summed differently when it is loaded again, and the next refresh rewrites an unchanged list", bad...)
+}
+
+// parserReportsReadError: when the input ends with a read error (connection
+// dropped, body cut short) the parser reports it — this is the only way the
+// refresh learns that the list is incomplete and must not replace the stored
+// file.  Shared by C15-D5 and C14-D5.
+func parserReportsReadError(c *Ctx, rule string) {
+	p, r := c.P, c.R
+	pf := p.Fn("(*filtering/rulelist.Parser).Parse")
+	if pf == nil {
+		r.Undecided(rule, "Parse", "-", "anchor not found")
+		return
+	}
+	var serr *ssa.Call
+	for _, call := range core.CallsTo(pf, "(*bufio.Scanner).Err") {
+		serr, _ = call.Instr.(*ssa.Call)
+	}
+	if serr == nil {
+		r.Fail(rule, "scanner-error-reported", p.FnPos(pf), "the parser no longer asks the scanner for the read error")
+		return
+	}
+	ok, why := true, ""
+	nRet := 0
+	for _, b := range pf.Blocks {
+		ret, isRet := b.Instrs[len(b.Instrs)-1].(*ssa.Return)
+		if !isRet || len(ret.Results) != 2 || !serr.Block().Dominates(b) {
+			continue
+		}
+		nRet++
+		var leaves func(v ssa.Value, depth int) []ssa.Value
+		leaves = func(v ssa.Value, depth int) []ssa.Value {
+			v = core.ResolveCellLoad(v)
+			if depth > 6 {
+				return []ssa.Value{v}
+			}
+			switch x := v.(type) {
+			case *ssa.Phi:
+				var out []ssa.Value
+				for _, e := range x.Edges {
+					out = append(out, leaves(e, depth+1)...)
+				}
+				return out
+			case *ssa.Call:
+				if core.CalleeKey(x.Common()) == "github.com/AdguardTeam/golibs/errors.Annotate" {
+					return leaves(x.Call.Args[0], depth+1)
+				}
+			}
+			return []ssa.Value{v}
+		}
+		for _, l := range leaves(ret.Results[1], 0) {
+			if l != ssa.Value(serr) {
+				ok, why = false, "after the scan the returned error can be something other than the scanner's error (e.g. nil for a particular kind of read error)"
+			}
+		}
+	}
+	if nRet == 0 {
+		ok, why = false, "no return follows the scanner-error query"
+	}
+	r.Check(ok, rule, "scanner-error-reported", p.InstrPos(serr), "after the scan the parser returns exactly the scanner's error", why+": a list whose transfer broke off is parsed 'successfully' and replaces the stored one")
 }
